@@ -135,6 +135,7 @@ class Engine:
         self.events = []  # generic event log for rules (appended by contracts)
         self.partition_filter = None  # callable(frame, block index, kind, detail) -> bool
         self.inline_filter = None  # callable(path) -> bool: may this local callee be inlined
+        self.on_agg = None  # hook(eng, st, frame, aggregate rvalue, operand values): observe ADT constructions
         self.on_call = None  # hook(eng, st, frame, f, args, site) -> outcomes or None
         self.trace = False
         self.key_all = False  # full path sensitivity (small functions only)
@@ -593,6 +594,8 @@ class Engine:
                 a = self.F.adts.get(rv["adt"])
                 targs = [T.subst(x, fr.sub) for x in rv.get("args", []) if isinstance(x, int)]
                 ti = T.mk_adt(rv["adt"], targs)
+                if self.on_agg is not None:
+                    self.on_agg(self, st, fr, rv, ops)
                 if a and a["kind"] == "enum":
                     return Enum(ti, ((rv["variant"], tuple(ops)),), "agg")
                 return Struct(ti, tuple(ops))
